@@ -22,7 +22,11 @@
      the script supplied for the standard that uses it (ideal VNA: M = S);
    - rational-function interpolation is not modelled: a value asked at a knot is the knot's value
      ([RValue]), any other in-range frequency gives [RInterp];
-   - allocation failure only for the parameter allocation ([fail] argument of the make ops).
+   - allocation failure only for the parameter allocation ([fail] argument of the make ops);
+   - fuel: [release], [frange], [chain_end], [vn_get_param], [vn_check_param] follow [other] links with
+     a fuel of (number of slots + 1) where the C code has an unbounded loop / recursion.  The
+     invariant (TableSpec.Inv) contains the acyclicity of the [other] links, and CalTabProofs proves
+     that under it the fuel is never exhausted (the result is the same for every larger fuel).
    No proofs in this file. *)
 Require Import List ZArith Bool Arith.
 Import ListNotations.
@@ -116,7 +120,7 @@ Definition hold (t : ptable) (h : nat) : ptable :=
 
 (* _vnacal_release_parameter with _vnacal_free_parameter; the recursion follows the [other]
    link of a freed unknown/correlated parameter.  The boolean is "an assertion failed / a NULL
-   slot was dereferenced".  Every recursive call removes one occupied slot, so fuel = number of
+   slot was dereferenced" (assert(hold_count > 0), assert(vpmr_deleted), assert(vprmc_count >= 1)).  Every recursive call removes one occupied slot, so fuel = number of
    slots + 1 suffices (proved in CalTabProofs: the fuel never runs out under the invariant). *)
 Fixpoint release (fuel : nat) (t : ptable) (h : nat) : ptable * bool :=
   match fuel with
@@ -129,6 +133,7 @@ Fixpoint release (fuel : nat) (t : ptable) (h : nat) : ptable * bool :=
       | O => (t, true)                                   (* assert(hold_count > 0) *)
       | S O =>
         if negb (p_deleted p) then (t, true)             (* assert(vpmr_deleted) *)
+        else if pt_count t =? 0 then (t, true)           (* _vnacal_free_parameter: assert(vprmc_count >= 1) *)
         else
           let t' := mkPT (upd (pt_slots t) h None) (pred (pt_count t))
                          (if h <? pt_first_free t then h else pt_first_free t) in
@@ -344,6 +349,10 @@ Inductive ret :=
 | RTok (tok : option Z)
 | RNoSuch                       (* the script names a vnacal_new_t id that is not allocated / is busy *)
 | RGone                         (* vnacal_t already freed *)
+| RUndef                        (* caller error the C code cannot detect (an argument array shorter than
+                                   the count passed with it): the model makes no prediction; the state is
+                                   left alone and the driver flags the line, so a script that reaches this
+                                   outcome can never agree with the library *)
 | RFault.                       (* assertion failure or invalid memory access *)
 
 Inductive ecl := ENone | EINVAL | ENOENT | EDOM | ENOMEM.
@@ -486,7 +495,8 @@ Definition free_all (asis : bool) (s : state) : state * outcome :=
   let '(t1, f1) := free_news (st_pt s) (st_news s) in
   let idx := rev (seq 0 (length (pt_slots t1))) in
   let '(t2, f2) := (if asis then teardown_asis else teardown) t1 idx in
-  if (f1 || f2)%bool then (s, fault)
+  (* _vnacal_teardown_parameter_collection ends with assert(vprmc_count == 0) *)
+  if (f1 || f2 || negb (pt_count t2 =? 0))%bool then (s, fault)
   else (mkSt t2 [] (repeat None max_vn) None true, mkOut (RInt 0) ENone 0).
 
 Definition step_gen (asis : bool) (s : state) (o : op) : state * outcome :=
@@ -503,7 +513,11 @@ Definition step_gen (asis : bool) (s : state) (o : op) : state * outcome :=
     | [] => (s, fail_usage)
     | f0 :: _ =>
       if ((f0 <? 0)%Z || negb (ascending fs))%bool then (s, fail_usage)
-      else finish_make s (alloc_param_gen (negb asis) t (KVector fs gs) fl) (fun t => t)
+      (* the C function receives ONE count (`frequencies`) for both arrays and copies that many
+         entries of gamma_vector: a shorter caller array is read past its end (undefined, not
+         detectable by the code); a longer one is truncated *)
+      else if length gs <? length fs then (s, mkOut RUndef ENone 0)
+      else finish_make s (alloc_param_gen (negb asis) t (KVector fs (firstn (length fs) gs)) fl) (fun t => t)
     end
   | OMakeUnknown h fl =>
     match get_param t h with
